@@ -979,3 +979,216 @@ pub fn run_r(line: &str) -> Result<String, String> {
 	}
 	Ok(outs.join(" ; "))
 }
+
+// ---------------------------------------------------------------------------------------------
+// `ocfx`: interoperability with a third implementation (apache-avro, the Rust implementation of
+// the Apache project), in both directions (C06). Judged here: the model has nothing to add to
+// "an independent implementation reads the same values".
+
+fn apache_codec(name: &str) -> Option<apache_avro::Codec> {
+	Some(match name {
+		"null" => apache_avro::Codec::Null,
+		"deflate" => apache_avro::Codec::Deflate,
+		"snappy" => apache_avro::Codec::Snappy,
+		"zstandard" => apache_avro::Codec::Zstandard,
+		"bzip2" => apache_avro::Codec::Bzip2,
+		"xz" => apache_avro::Codec::Xz,
+		_ => return None,
+	})
+}
+
+pub fn generate_x(seed: u64, n: usize, emit: &mut dyn FnMut(String)) {
+	let mut rng = rng_from(seed, "ocfx");
+	let mut produced = 0;
+	let mut attempts = 0;
+	while produced < n && attempts < 50 * n + 100 {
+		attempts += 1;
+		let mut sg = SchemaGen::new(&mut rng, 8, false);
+		sg.decimals = false;
+		let raw = sg.gen_root();
+		let Ok(schema) = build::to_schema_mut(&raw).freeze() else { continue };
+		// only schemas the other implementation accepts; it renames a `duration` fixed to
+		// "duration" and writes it in a nested `"type": {…}` form, and it validates the text of
+		// `uuid` strings: both kinds of schema are left to the harness's own independent
+		// reader/writer (ocfr / ocfw)
+		if raw.iter().any(|n| matches!(n.logical, Some(Logical::Duration) | Some(Logical::Uuid))) {
+			continue;
+		}
+		if apache_avro::Schema::parse_str(schema.json()).is_err() {
+			continue;
+		}
+		let codec = *CODECS.choose(&mut rng).unwrap();
+		let k = rng.gen_range(1..7);
+		let mut values = vec![];
+		let mut config = serde_avro_fast::ser::SerializerConfig::new(&schema);
+		let mut ok = true;
+		for _ in 0..k {
+			let mut vg = ValueGen {
+				rng: &mut rng,
+				schema: &raw,
+				allow_slow: false,
+				exotic: 0.0,
+				invalid: 0.0,
+				by_name_only: true,
+				maybe_invalid: false,
+				no_decimal_oracle: true,
+			};
+			let v = vg.gen(0, 0);
+			if serde_avro_fast::to_datum_vec(&v, &mut config).is_err() {
+				ok = false;
+			}
+			values.push(v);
+		}
+		if !ok {
+			continue;
+		}
+		let approx = *[0usize, 7, 30, 65536].choose(&mut rng).unwrap();
+		let level = if rng.gen_bool(0.5) { 0 } else { *[1usize, 3, 9].choose(&mut rng).unwrap() };
+		let mut w = W::default();
+		w.t("ocfx").t(codec).n(approx).n(level).schema(&raw).n(values.len());
+		for v in &values {
+			w.n(rng.gen_bool(0.2) as usize).sv(v);
+		}
+		let all = SV::Seq(None, values);
+		crate::streams::ser::ext_entries(&mut w, &raw, &all);
+		emit(w.s);
+		produced += 1;
+	}
+}
+
+pub fn run_x(line: &str) -> Result<String, String> {
+	let mut r = R::new(line);
+	let _ = r.tok()?;
+	let codec = r.tok()?.to_string();
+	let approx = r.n()?;
+	let level = r.n()?;
+	let raw = r.schema()?;
+	let vals = r.list(|r| {
+		let flush = r.n()? != 0;
+		Ok((flush, r.sv()?))
+	})?;
+	let schema = build::to_schema_mut(&raw).freeze().map_err(|_| "freeze")?;
+	let Ok(aschema) = apache_avro::Schema::parse_str(schema.json()) else {
+		return Ok("judged # n/a the other implementation rejects the schema".into());
+	};
+	let Some(acodec) = apache_codec(&codec) else { return Err("codec".into()) };
+	let mut config = serde_avro_fast::ser::SerializerConfig::new(&schema);
+	let mut datums = vec![];
+	for (_, v) in &vals {
+		datums.push(serde_avro_fast::to_datum_vec(v, &mut config).map_err(|_| "value does not serialize")?);
+	}
+	if datums.iter().all(|d| d.is_empty()) {
+		return Ok("judged # n/a zero-size values (the other implementation rejects empty blocks)".into());
+	}
+	// direction 1: the crate writes, apache-avro reads
+	let file = {
+		let mut w = WriterBuilder::new(&mut config)
+			.compression(compression(&codec, if level == 0 { None } else { Some(level as u8) }))
+			.approx_block_size(approx as u32)
+			.build(Vec::new())
+			.map_err(|_| "writer build")?;
+		for (flush, v) in &vals {
+			w.serialize(v).map_err(|_| "writer serialize")?;
+			if *flush {
+				w.finish_block().map_err(|_| "finish_block")?;
+			}
+		}
+		w.into_inner().map_err(|_| "into_inner")?
+	};
+	let mut read_back = vec![];
+	match apache_avro::Reader::new(&file[..]) {
+		Err(e) => return Ok(format!("judged # VIOLATION apache-avro rejects the header of a file the writer produced: {e}")),
+		Ok(reader) => {
+			for item in reader {
+				match item {
+					Ok(v) => read_back.push(v),
+					Err(e) => {
+						// apache-avro 0.17 cannot read a block whose data is empty
+						if datums.iter().any(|d| d.is_empty()) {
+							return Ok("judged # n/a a block of zero-size values (the other implementation rejects empty blocks)".into());
+						}
+						return Ok(format!("judged # VIOLATION apache-avro fails on a block the writer produced: {e}"));
+					}
+				}
+			}
+		}
+	}
+	if read_back.len() != datums.len() {
+		return Ok(format!(
+			"judged # VIOLATION apache-avro reads {} values from a file of {}",
+			read_back.len(),
+			datums.len()
+		));
+	}
+	// the values it read re-encode to the datums written (maps may come back in another order:
+	// compare sizes then)
+	let has_map = raw.iter().any(|n| matches!(n.reg, Reg::Map(_)));
+	for (i, v) in read_back.iter().enumerate() {
+		match apache_avro::to_avro_datum(&aschema, v.clone()) {
+			Ok(b) => {
+				// (with maps the other implementation may re-order or merge entries: not compared)
+				let same = has_map || b == datums[i];
+				if !same {
+					return Ok(format!(
+						"judged # VIOLATION value {i} read by apache-avro re-encodes differently: written {} re-encoded {}",
+						hex(&datums[i]),
+						hex(&b)
+					));
+				}
+			}
+			Err(_) => {}
+		}
+	}
+	// direction 2: apache-avro writes the same values, the crate reads
+	let mut aw = apache_avro::Writer::with_codec(&aschema, Vec::new(), acodec);
+	for v in &read_back {
+		if aw.append_value_ref(v).is_err() {
+			return Ok("judged # n/a apache-avro cannot write the value back".into());
+		}
+	}
+	let afile = match aw.into_inner() {
+		Ok(f) => f,
+		Err(_) => return Ok("judged # n/a apache-avro writer failed".into()),
+	};
+	let expect: Vec<String> = datums
+		.iter()
+		.map(|d| crate::streams::de::run_one(&Backend::Slice, 1_000_000_000, 64, &schema, &Hint::Any, d))
+		.collect();
+	for b in [Backend::Slice, Backend::Reader { last: 7, sched: vec![], max_alloc: 512 * 1024 * 1024 }] {
+		let out = run_backend_on_file(&b, &afile, &Hint::Any);
+		let got: Vec<&str> = out.split(" v ").collect();
+		// `v <out> v <out> … eof eof`
+		let n_values = out.matches("v ").count().min(usize::MAX);
+		let _ = (got, n_values);
+		let mut yields: Vec<String> = vec![];
+		let mut cur: Vec<&str> = vec![];
+		for t in out.split(' ') {
+			if (t == "v" || t == "e" || t == "eof") && !cur.is_empty() {
+				yields.push(cur.join(" "));
+				cur = vec![];
+			}
+			cur.push(t);
+		}
+		if !cur.is_empty() {
+			yields.push(cur.join(" "));
+		}
+		let vals_read: Vec<&String> = yields.iter().filter(|y| y.starts_with("v ")).collect();
+		if yields.iter().any(|y| y.starts_with("e ")) || out.starts_with("init-err") || out == "panic" {
+			return Ok(format!("judged # VIOLATION the reader fails on a file written by apache-avro: {}", &out[..out.len().min(200)]));
+		}
+		if vals_read.len() != expect.len() {
+			return Ok(format!("judged # VIOLATION the reader yields {} values from an apache-avro file of {}", vals_read.len(), expect.len()));
+		}
+		if !has_map {
+			for (y, e) in vals_read.iter().zip(expect.iter()) {
+				// expect: `ok <out> left 0`; y: `v <out>`; borrowed flags may differ (compressed blocks)
+				let strip = |s: &str| s.replace(" 1", " 0");
+				let e_out = e.strip_prefix("ok ").and_then(|s| s.rsplit_once(" left ")).map(|(o, _)| o.to_string()).unwrap_or_default();
+				if strip(&y[2..]) != strip(&e_out) {
+					return Ok("judged # VIOLATION a value read from an apache-avro file differs from the value written".into());
+				}
+			}
+		}
+	}
+	Ok("judged # ok".into())
+}
